@@ -44,6 +44,7 @@ static char * ibuf;
 static size_t ibuf_len;
 static scpi_error_t * equeue;
 static int qcap;
+static int heapsize = 96;
 #if USE_DEVICE_DEPENDENT_ERROR_INFORMATION && !USE_MEMORY_ALLOCATION_FREE
 static char * eheap;
 #endif
@@ -89,10 +90,17 @@ static int on_error(scpi_t * c, int_fast16_t e) {
         /* text stored with the newest entry */
         int last = (c->error_queue.wr + c->error_queue.size - 1) % c->error_queue.size;
         const char * t = c->error_queue.data[last].device_dependent_info;
-        size_t i, n = t ? strlen(t) : 0;
+        const char * t2 = NULL;
+        size_t i, n = 0, n2 = 0, k = 0;
+#if !USE_MEMORY_ALLOCATION_FREE
+        if (t) scpiheap_get_parts(&c->error_info_heap, t, &n, &t2, &n2);      /* the text may wrap around the heap end */
+#else
+        n = t ? strlen(t) : 0;
+#endif
         if (c->error_queue.data[last].error_code == SCPI_ERROR_UNDEFINED_HEADER) {
             e113len += snprintf(e113 + e113len, sizeof e113 - e113len, "%s[", e113len ? "," : "");
-            for (i = 0; i < n && e113len < sizeof e113 - 16; i++) e113len += snprintf(e113 + e113len, sizeof e113 - e113len, "%s%d", i ? "," : "", (unsigned char) t[i]);
+            for (i = 0; i < n && e113len < sizeof e113 - 16; i++, k++) e113len += snprintf(e113 + e113len, sizeof e113 - e113len, "%s%d", k ? "," : "", (unsigned char) t[i]);
+            for (i = 0; t2 && i < n2 && e113len < sizeof e113 - 16; i++, k++) e113len += snprintf(e113 + e113len, sizeof e113 - e113len, "%s%d", k ? "," : "", (unsigned char) t2[i]);
             e113len += snprintf(e113 + e113len, sizeof e113 - e113len, "]");
         }
     }
@@ -170,6 +178,13 @@ static scpi_result_t handler(scpi_t * c) {
             }
             else if (!strcmp(o->kind, "chars")) { const char * v = NULL; size_t l = 0; ok = SCPI_ParamCharacters(c, &v, &l, o->mand); logf_("\"v\":"); if (ok) log_bytes(v, l); else logf_("[]"); }
             else if (!strcmp(o->kind, "block")) { const char * v = NULL; size_t l = 0; ok = SCPI_ParamArbitraryBlock(c, &v, &l, o->mand); logf_("\"v\":"); if (ok) log_bytes(v, l); else logf_("[]"); }
+            else if (!strcmp(o->kind, "tshort")) {
+                size_t cap = 4, l = 0;                      /* a tight caller buffer (exact-size allocation) */
+                char * buf = malloc(cap);
+                ok = SCPI_ParamCopyText(c, buf, cap, &l, o->mand);
+                logf_("\"v\":[]");
+                free(buf);
+            }
             else if (!strcmp(o->kind, "text")) {
                 size_t cap = 512, l = 0;
                 char * buf = malloc(cap);
@@ -208,6 +223,12 @@ static scpi_result_t handler(scpi_t * c) {
                     SCPI_ResultArbitraryBlock(c, p.ptr, (size_t) p.len);
                 if (p.type == SCPI_TOKEN_PROGRAM_MNEMONIC) SCPI_ResultBool(c, p.len > 2);
             }
+        } else if (o->k == 'q') {
+            scpi_error_t e;
+            SCPI_ErrorPop(c, &e);                           /* the application reads one error, as SYST:ERR? does */
+#if USE_DEVICE_DEPENDENT_ERROR_INFORMATION
+            SCPIDEFINE_free(&c->error_info_heap, e.device_dependent_info, false);
+#endif
         } else if (o->k == 'r') {
             if (!strcmp(o->kind, "i32")) SCPI_ResultInt32(c, (int32_t) o->ival);
             else if (!strcmp(o->kind, "bool")) SCPI_ResultBool(c, o->ival != 0);
@@ -265,8 +286,8 @@ static void start_ctx(void) {
     table[ntable].pattern = NULL; table[ntable].callback = NULL; table[ntable].tag = 0;
     SCPI_Init(&ctx, table, &itf, scpi_units_def, "MF", "MD", NULL, "1", ibuf, ibuf_len, equeue, (int16_t) qcap);
 #if USE_DEVICE_DEPENDENT_ERROR_INFORMATION && !USE_MEMORY_ALLOCATION_FREE
-    eheap = malloc(96);
-    SCPI_InitHeap(&ctx, eheap, 96);
+    eheap = malloc((size_t) heapsize);
+    SCPI_InitHeap(&ctx, eheap, (size_t) heapsize);
 #endif
 }
 
@@ -299,7 +320,8 @@ int main(int argc, char ** argv) {
             int bs = 256;
             free_scenario();
             qcap = 16;
-            sscanf(line + 1, "%d %d", &bs, &qcap);
+            heapsize = 96;
+            sscanf(line + 1, "%d %d %d", &bs, &qcap, &heapsize);
             ibuf_len = (size_t) bs; ibuf = malloc(ibuf_len); memset(ibuf, 0x55, ibuf_len);
             equeue = calloc((size_t) qcap, sizeof(scpi_error_t));
             started = 0; first_call = 1; id++;
@@ -335,6 +357,7 @@ int main(int argc, char ** argv) {
                     else if (!strcmp(tok, "bd")) { o->k = 'd'; o->blen = unhex(a ? a : "", &o->bytes); }
                     else if (!strcmp(tok, "e")) { o->k = 'e'; o->ival = atol(a); }
                     else if (!strcmp(tok, "x")) { o->k = 'x'; }
+                    else if (!strcmp(tok, "q")) { o->k = 'q'; }
                 }
             }
         } else if (line[0] == 'I' || line[0] == 'F' || line[0] == 'P') {
